@@ -34,6 +34,7 @@ type srcFS struct {
 	pause     func(name string, readIdx int64) // called before every Read
 	copying   int64
 	maxCopies int64
+	failOpen  string // the next Open of this name fails (once)
 }
 
 func newSrcFS(fs hackpadfs.FS) *srcFS {
@@ -57,6 +58,15 @@ type srcFile struct {
 
 func (s *srcFS) Open(name string) (hackpadfs.File, error) {
 	atomic.AddInt64(s.counter(s.opens, name), 1)
+	s.mu.Lock()
+	failNow := s.failOpen != "" && s.failOpen == name
+	if failNow {
+		s.failOpen = ""
+	}
+	s.mu.Unlock()
+	if failNow {
+		return nil, &hackpadfs.PathError{Op: "open", Path: name, Err: errInjected}
+	}
 	f, err := s.fs.Open(name)
 	if err != nil {
 		return nil, err
@@ -447,9 +457,10 @@ func runC10(r *Rng, n int, replay string) {
 			if (o.kind == "read" || o.kind == "seek") && isDirH[o.h] {
 				continue // byte reads of a directory handle: mem.FS's known deviation (C02), not the cache's business
 			}
-			readsBefore := int64(0)
+			readsBefore, opensBefore := int64(0), int64(0)
 			if o.kind == "open" {
 				readsBefore = src.count(src.reads, o.p)
+				opensBefore = src.count(src.opens, o.p)
 			}
 			func() {
 				defer func() {
@@ -471,6 +482,9 @@ func runC10(r *Rng, n int, replay string) {
 				if info != nil && !info.IsDir() && retained(o.p) {
 					if openedOK[o.p] && src.count(src.reads, o.p) != readsBefore {
 						c.fail(fmt.Sprintf("source %v step %d (%s): the source was read again (%d reads) for a retained file that had already been opened successfully", tree, i, o, src.count(src.reads, o.p)-readsBefore), "reread")
+					}
+					if openedOK[o.p] && src.count(src.opens, o.p) != opensBefore && c.Oracle == "" {
+						c.fail(fmt.Sprintf("source %v step %d (%s): the source was opened again for a retained file (%d bytes) that had already been opened successfully: it is not served from the cache", tree, i, o, info.Size()), "reopen")
 					}
 					openedOK[o.p] = true
 				}
@@ -653,6 +667,55 @@ func runC11(r *Rng, n int, replay string) {
 					cList(c11Results), cList([]string{cPair(cStr(name), cNat(int(src.count(src.opens, name))))}))
 			}
 			emit(c)
+			// the same fault again, then a re-open during which the SOURCE cannot be opened, then fault-free re-opens:
+			// whatever the first failure left in the cache store must still never be served
+			if err != nil && (ft.idx%3 == 0) {
+				src2 := mkSrc()
+				st2, store2 := newStore(minimal)
+				if ft.kind == "source-read" {
+					src2.failName, src2.failRead = name, int64(ft.idx)
+				} else {
+					st2.failAt = int64(ft.idx)
+				}
+				cfs2, _ := cache.NewReadOnlyFS(src2, store2, cache.ReadOnlyOptions{})
+				c2 := &Case{ID: 100000 + id, Kind: "fault/" + ft.kind + "/reopen-source-down", Trivial: true}
+				c2.Cells = []string{fmt.Sprintf("fault2/%s/min=%v", ft.kind, minimal)}
+				c2.Text = []string{hdr + "; then a re-open while the source cannot be opened; then fault-free re-opens"}
+				if f, e := cfs2.Open(name); e == nil {
+					_ = f.Close()
+				}
+				src2.failRead, st2.failAt = -1, -1
+				src2.mu.Lock()
+				src2.failOpen = name
+				src2.mu.Unlock()
+				if f, e := cfs2.Open(name); e == nil {
+					got, rerr := readAllOf(f)
+					_ = f.Close()
+					c2.Text = append(c2.Text, fmt.Sprintf("re-open with the source down: %d bytes", len(got)))
+					if rerr != nil || !bytes.Equal(got, data) {
+						c2.fail(c2.Text[0]+fmt.Sprintf(": the re-open with the source down served %d bytes (err %v) instead of the complete %d source bytes", len(got), rerr, len(data)), "fault2:"+ft.kind+":partial-served")
+					}
+				} else {
+					c2.Text = append(c2.Text, "re-open with the source down: "+e.Error())
+				}
+				src2.mu.Lock()
+				src2.failOpen = ""
+				src2.mu.Unlock()
+				for k := 0; k < 2 && c2.Oracle == ""; k++ {
+					f, e := cfs2.Open(name)
+					if e != nil {
+						c2.Text = append(c2.Text, fmt.Sprintf("re-open %d: %v", k, e))
+						continue
+					}
+					got, rerr := readAllOf(f)
+					_ = f.Close()
+					c2.Text = append(c2.Text, fmt.Sprintf("re-open %d: %d bytes", k, len(got)))
+					if rerr != nil || !bytes.Equal(got, data) {
+						c2.fail(c2.Text[0]+fmt.Sprintf(": re-open %d served %d bytes (err %v) instead of the complete %d source bytes", k, len(got), rerr, len(data)), "fault2:"+ft.kind+":partial-served")
+					}
+				}
+				emit(c2)
+			}
 		}
 		// concurrent first opens of one name, the copy paused at every chunk boundary
 		for trial := 0; trial < 2 && id < n; trial++ {
